@@ -637,7 +637,7 @@ func c02r6(c *Ctx, id string) {
 	c.need(nr != nil, id, "metadata.NewReadMetadata")
 	for _, a := range allocsOf(nr, w.NamedType("metadata", "readMetadata")) {
 		t, _ := allocTable(a)
-		got := w.Origin(t[inner])
+		got := w.Origin(w.throughLayers(t[inner]))
 		c.Check(got == "param("+nr.Params[0].Name()+")", id, "readonly:wraps", a.Pos(), "wraps "+got, "wraps "+got)
 	}
 	// Start wraps whenever ReadOnly
